@@ -41,7 +41,8 @@ import textwrap
 from runner import Infra, TieBroken
 
 ID = "C19"
-LEAN_MODULES = ["PyYetiVerif.Props.C19", "PyYetiVerif.Audit.C19"]
+LEAN_MODULES = ["PyYetiVerif.Props.C19", "PyYetiVerif.Props.C19Fixtime", "PyYetiVerif.Props.C19Despike", "PyYetiVerif.Props.C19Oct",
+                "PyYetiVerif.Props.C19Psd", "PyYetiVerif.Props.C19Resample", "PyYetiVerif.Props.C19Consts", "PyYetiVerif.Audit.C19"]
 AUDIT_FILE = "PyYetiVerif/Audit/C19.lean"
 THEOREMS = ["PyYetiVerif.C19." + n for n in (
     "searchsorted_left_spec searchsorted_right_spec previous_is_last_le previous_zero_if_none "
@@ -56,6 +57,24 @@ THEOREMS = ["PyYetiVerif.C19." + n for n in (
     "constants_reproduced resample_kept_sample_times tnew_round_half_even tnew_uniform "
     "edges_partition_linear edges_partition_linear_tolerance edges_partition_log edges_dispatch "
     "edges_extendends_rule freq_oct_bands freq_oct_ratio alldrops_indices_are_full_record_positions "
+    # Props/C19Fixtime.lean
+    "auto_sr_def auto_sr_uniform_8hz_gives_10 outtimes_removed_exactly outtimes_exactly_three_sigma_stays dropouts_marked "
+    "mk_initial_tnew_total mk_initial_tnew_needs_two_samples alignment_shift_bound "
+    "alignment_shift_mean_branch_can_exceed_half_step base_shift_hits_base del_loners_only_adds del_loners_examples "
+    "fixtime_idempotent uniform_has_no_outlier_times fixtime_idempotent_inhabited "
+    # Props/C19Despike.lean
+    "despike_decision_rule despike_threshold_is_strict despike_removes_only_flagged despike_fixed_point "
+    "despike_diff_fixed_point despike_idempotent_partial "
+    # Props/C19Oct.lean
+    "freq_oct_trim_rules freq_oct_count freq_oct_untrimmed_scale freq_oct_exact_vs_preferred "
+    # Props/C19Psd.lean
+    "rescale_conserves_area rescale_constant_psd_unchanged interp_log_is_loglog_line psdmod_ge_psd_average "
+    # Props/C19Resample.lean
+    "resample_gcd_reduction resample_decimation_every_qth resample_dc_gain resample_storage_types "
+    "resample_integer_buffer_counterexample "
+    # Props/C19Consts.lean (obligations on Generated/C19Consts.lean)
+    "constants_literals_match_source constants_defaults_match_source constants_operators_match_source "
+    "constants_resample_buffers_are_float64 constants_used_by_models "
 ).split()]
 TRUSTED = [
     "correspondence harness harness/props/c19.py (exact comparison on dyadic times; numeric 1e-9*scale elsewhere)",
@@ -261,10 +280,25 @@ def _rescale_edge_source(repo):
 
 def translate(ctx):
     global _EDGE_SRC
+    import sys
+
     _EDGE_SRC = None
     _EDGE_SRC = _rescale_edge_source(ctx.repo)
     ctx.extra["rescale_edge_code"] = "source text of rescale._get_fl_fu and of the input-edge block, exec'd as plain Python"
-    return ["psd.rescale._get_fl_fu (source text)", "psd.rescale input-edge block (source text)"]
+    # constants, defaults and comparison operators of dsp.py / psd.py -> Generated/C19Consts.lean
+    tdir = os.path.join(ctx.verif, "harness", "translate")
+    if tdir not in sys.path:
+        sys.path.insert(0, tdir)
+    import c19_consts as tr
+
+    try:
+        names, consts = tr.run(ctx.repo, ctx.lean)
+    except tr.Unparsable as e:
+        raise TieBroken("the constants of dsp.py / psd.py no longer fit the translator's grammar: %s" % e)
+    except (OSError, SyntaxError) as e:
+        raise TieBroken("cannot read dsp.py / psd.py: %s" % e)
+    ctx.extra["generated_constants"] = consts
+    return ["psd.rescale._get_fl_fu (source text)", "psd.rescale input-edge block (source text)"] + names
 
 
 # ---------------------------------------------------------------------------------------
